@@ -101,6 +101,13 @@ def build_harness(race=False):
     """go build always runs: it is the step that ties the checks to /repo's working tree."""
     out = "harness_race" if race else "harness"
     flags = "-race " if race else ""
+    # the module under test is the one at REPO (VERIF_REPO for scratch copies): keep go.mod's replace line in step
+    gm = os.path.join(HARNESS, "go.mod")
+    txt = open(gm).read()
+    new = re.sub(r"(replace github.com/jawher/mow.cli => ).*", lambda m: m.group(1) + REPO, txt)
+    if new != txt:
+        with open(gm, "w") as f:
+            f.write(new)
     if os.environ.get("VERIF_COVER"):
         # statement coverage of the library by the correspondence streams (tools/coverage.sh)
         flags += "-cover -coverpkg=github.com/jawher/mow.cli/...,./... "
